@@ -581,7 +581,7 @@ func detHandle(req string) string {
 	// what has not returned by now (nothing is holding it back any more) never will
 	select {
 	case <-fin:
-	case <-time.After(patience):
+	case <-time.After(10 * time.Second):
 	}
 	resMu.Lock()
 	defer resMu.Unlock()
